@@ -19,6 +19,10 @@ func main() {
 		cmdVerify(os.Args[2:])
 	case "check":
 		cmdCheck(os.Args[2:])
+	case "baseline":
+		cmdBaseline(os.Args[2:])
+	case "replay":
+		cmdReplay(os.Args[2:])
 	default:
 		fmt.Fprintln(os.Stderr, "unknown command", os.Args[1])
 		os.Exit(2)
@@ -143,9 +147,4 @@ func cmdVerify(args []string) {
 	if bad > 0 {
 		os.Exit(1)
 	}
-}
-
-func cmdCheck(args []string) {
-	fmt.Fprintln(os.Stderr, "not implemented yet")
-	os.Exit(2)
 }
